@@ -66,6 +66,15 @@ def enclosing_function(node: ast.AST) -> ast.AST | None:
     return None
 
 
+def module_of(node: ast.AST) -> "Module | None":
+    cur: ast.AST | None = node
+    while cur is not None:
+        if isinstance(cur, ast.Module):
+            return getattr(cur, "_mod", None)
+        cur = parent(cur)
+    return None
+
+
 def enclosing_class(node: ast.AST) -> ast.ClassDef | None:
     for a in ancestors(node):
         if isinstance(a, ast.ClassDef):
@@ -128,6 +137,25 @@ class Repo:
                 r.modules[old.name] = m
         return r
 
+    def use_inlined(self, name: str, protected) -> int:
+        """Replace module `name` (for this Repo object only) by a view in which calls to unprotected private helpers
+        are inlined into their callers (see sa/inline.py). Returns the number of inlined calls."""
+        from .inline import inline_module
+
+        done = getattr(self, "_inlined", None)
+        if done is None:
+            done = self._inlined = {}
+        m = self.module(name)
+        if m.rel in done:
+            return done[m.rel]
+        new, n = inline_module(m, protected)
+        self._collect(new)
+        self.by_rel[m.rel] = new
+        if self.modules.get(m.name) is m:
+            self.modules[m.name] = new
+        done[m.rel] = n
+        return n
+
     def read_text(self, rel: str) -> str:
         t = getattr(self, "_texts", {}).get(rel)
         if t is not None:
@@ -181,6 +209,7 @@ class Repo:
                 self.by_rel[m.rel] = m
 
     def _collect(self, m: Module) -> None:
+        m.tree._mod = m  # type: ignore[attr-defined]  (lets helpers find the module of any node through its ancestors)
         is_pkg = m.path.name == "__init__.py"
         pkg_parts = m.name.split(".") if is_pkg else m.name.split(".")[:-1]
         for node in ast.walk(m.tree):
